@@ -1294,6 +1294,32 @@ def py_isclass(x):
     return isinstance(x, ClassVal)
 
 
+def simpson_weights(x):
+    """the quadrature weights scipy.integrate.simpson uses on the grid `x` (composite Simpson rule, a fixed linear functional of the
+    integrand for a given grid): an uninterpreted function of the position, one per grid object"""
+    c = ctx()
+    key = ("simpson_weights", x.alloc)
+    if key not in c.uf_cache:
+        c.uf_cache[key] = z3.Function(str(c.fresh("simpson_w", "Int")), z3.IntSort(), z3.RealSort())
+    W = c.uf_cache[key]
+    return lambda i: Sym(W(S.z(i)))
+
+
+@model("scipy.integrate.simpson")
+def sp_simpson(y, x=None, dx=1.0, axis=-1, **kw):
+    """simpson(y, x=x) = sum_i w_i(x) y_i (ASSUMED: linear in the integrand with weights depending on the grid only)"""
+    c = ctx()
+    if c.concrete:
+        raise Unsupported("simpson in the concrete cross-check")
+    ty, tx = Tensor.lift(y), Tensor.lift(x)
+    if tx is None or ty is None or ty.ndim != 1 or tx.ndim != 1:
+        raise Unsupported("simpson without a 1-d grid")
+    USED.add("scipy.integrate.simpson(y, x=x) = sum_i w_i(x) y_i: linear in the integrand, weights depend on the grid only (assumed)")
+    W = simpson_weights(tx)
+    fz = ty.frozen()
+    return sigma(ty.shape[0], lambda i: S.mul(W(i), fz.at(i)))
+
+
 @model("numpy.array_equal")
 def np_array_equal(a, b, equal_nan=False):
     """array_equal(a, b): same shape and all elements equal (shapes compared concretely where both are concrete, else
